@@ -94,6 +94,15 @@ def check_result(c, die0_desc, centres0, die, what):
             raise Violation("%s: centre of %s %s lies outside the %r x %r die" % (what, m.name, m.center, W, H), "centre-outside")
         if m.is_fixed and (abs(m.center.x - x0) > 1e-9 * size or abs(m.center.y - y0) > 1e-9 * size):
             raise Violation("%s: fixed module %s moved from (%r, %r) to %s" % (what, m.name, x0, y0, m.center), "fixed-moved")
+    # the nets are the same nets on the moved modules: the wire length the result reports is the one of its centres
+    wl = mpmath.mpf(0)
+    for e in nl.edges:
+        pts = [(mpmath.mpf(b.center.x), mpmath.mpf(b.center.y)) for b in e.modules]
+        mx, my = sum(p[0] for p in pts) / len(pts), sum(p[1] for p in pts) / len(pts)
+        wl += mpmath.mpf(e.weight) * sum(mpmath.sqrt((p[0] - mx) ** 2 + (p[1] - my) ** 2) for p in pts)
+    if abs(mpmath.mpf(nl.wire_length) - wl) > mpmath.mpf(1e-9) * (abs(wl) + size):
+        raise Violation("%s: the returned netlist reports wire length %r, its centres and nets give %s" % (what, nl.wire_length, mpmath.nstr(wl, 15)),
+                        "wire-length-of-the-result")
 
 
 def run_layout(c):
@@ -102,6 +111,8 @@ def run_layout(c):
     except Exception as e:
         raise RuntimeError("generator produced a rejected design: %s: %s\n%s" % (type(e).__name__, e, c))
     desc0, cen0 = describe(die.netlist), centres(die.netlist)
+    if c.get("read_first"):
+        die.netlist.wire_length  # (the caller reports the initial wire length before relocating)
     twin = copy.deepcopy(die)
     kappa, it = float(c["kappa"]), int(c["max_iter"])
     what = "fruchterman_reingold_layout(kappa=%r, max_iter=%d)" % (kappa, it)
@@ -135,6 +146,8 @@ def run_layout(c):
         cls.append("squares-created-before")
     if c.get("share_points"):
         cls.append("shared-point-objects")
+    if c.get("read_first") and c["nets"]:
+        cls.append("wire-length-read-before")
     return dict(nt=kinds.count("fixed") >= 1 and len(kinds) - kinds.count("fixed") >= 2 and len(c["nets"]) >= 1, cls=cls)
 
 
@@ -172,6 +185,8 @@ def my_cost(nl):
 def run_bestof(c):
     die = build(c)
     desc0, cen0 = describe(die.netlist), centres(die.netlist)
+    if c.get("read_first"):
+        die.netlist.wire_length
     it = int(c["max_iter"])
     cands = []
     for kappa in [i / 10 for i in range(4, 16)]:
@@ -243,7 +258,8 @@ def design_s(draw, bestof=False):
     for _ in range(draw(_i(0, 5))):
         ar = draw(st.sampled_from([2, 2, 3, 4, 5]))
         nets.append(dict(m=[names[draw(_i(0, len(names) - 1))] for _ in range(ar)], w=draw(st.sampled_from([None, None, 1, 2, 0.5, 10, 3.5]))))
-    c = dict(unit=unit, W=W, H=H, modules=list(mods), nets=nets, squares=draw(_i(0, 2)) == 0, share_points=draw(_i(0, 2)) == 0)
+    c = dict(unit=unit, W=W, H=H, modules=list(mods), nets=nets, squares=draw(_i(0, 2)) == 0, share_points=draw(_i(0, 2)) == 0,
+             read_first=draw(_i(0, 2)) == 0)
     if bestof:
         c["max_iter"] = draw(_i(1, 8))
     else:
@@ -336,7 +352,7 @@ def subchecks():
             desc="the same layout in two child interpreters with different PYTHONHASHSEED values"),
         Sub("layout", run_layout, strategy=design_s(False), n_quick=6000, n_thorough=60000,
             required=("something-moved", "coincident-centres", "centre-on-border", "terminal", "movable-hard-module", "zero-iterations", "squares-created-before",
-                      "shared-point-objects")),
+                      "shared-point-objects", "wire-length-read-before")),
         Sub("bestof", run_bestof, strategy=design_s(True), n_quick=800, n_thorough=8000, shrink_quick=False,
             required=("bestof-spread",)),
     ]
